@@ -16,6 +16,17 @@ import (
 
 func init() { props["C20"] = runC20 }
 
+// c20Parse calls the library's parser; a panic is an observation, not a crash of the harness
+func c20Parse(s string) (d time.Duration, err error, panicked string) {
+	defer func() {
+		if p := recover(); p != nil {
+			panicked = fmt.Sprint(p)
+		}
+	}()
+	d, err = slog.VerifParseDuration(s)
+	return
+}
+
 func c20ErrKind(err error) string {
 	msg := err.Error()
 	switch {
@@ -135,7 +146,12 @@ func runC20(r *run) {
 				r.violate(violation{What: "the duration formatter panicked", Input: map[string]any{"duration_ns": v, "fractional_style": frac}, Actual: panicked})
 				continue
 			}
-			back, err := slog.VerifParseDuration(text)
+			back, err, pp := c20Parse(text)
+			if pp != "" {
+				r.emit("C20 parse "+hxs(text), "panic")
+				r.violate(violation{What: "the duration parser panicked", Input: map[string]any{"text": text}, Actual: pp})
+				continue
+			}
 			if err != nil {
 				r.emit("C20 parse "+hxs(text), c20ErrKind(err))
 			} else {
@@ -203,7 +219,12 @@ func runC20(r *run) {
 			s = []string{"", "0", "-0", "+0", "-", "+", ".", ".s", "-.s", "0.0s", "1d", "1.5d", "3d7s",
 				"9223372036854775808ns9223372036854775808ns", "9223372036854775808ns", "-9223372036854775808ns", "9223372036854775807ns1ns", "2562047h47m16.854775808s"}[g.intn(18)]
 		}
-		d1, e1 := slog.VerifParseDuration(s)
+		d1, e1, pp := c20Parse(s)
+		if pp != "" {
+			r.emit("C20 parse "+hxs(s), "panic")
+			r.violate(violation{What: "the duration parser panicked instead of rejecting the input", Input: fmt.Sprintf("%q", s), Actual: pp})
+			continue
+		}
 		d2, e2 := time.ParseDuration(s)
 		o1 := fmt.Sprintf("ok %d", int64(d1))
 		if e1 != nil {
@@ -216,7 +237,11 @@ func runC20(r *run) {
 		r.emit("C20 parse "+hxs(s), o1)
 		r.emit("C20 std "+hxs(s), o2)
 		r.seen("s|" + s)
-		r.count("parse=" + strings.Fields(o1)[0] + map[bool]string{true: "", false: "/" + strings.Join(strings.Fields(o1)[1:2], "")}[e1 == nil])
+		if e1 == nil {
+			r.count("parse=ok")
+		} else {
+			r.count("parse=" + strings.Join(strings.Fields(o1 + " -")[:2], "/"))
+		}
 		// oracle: same decision and result as the standard parser unless the day unit is involved
 		usesDay := strings.Contains(s, "d")
 		if !usesDay && o1 != o2 {
